@@ -12,6 +12,7 @@ mod harness;
 mod lin;
 mod scn_cont;
 mod scn_exec;
+mod scn_multi;
 mod payload;
 mod rng;
 mod scn_uni;
@@ -52,14 +53,17 @@ fn registry(property: &str) -> Option<PropertyCheck> {
         "C12" => PropertyCheck { parts: vec![Box::new(Part(Arc::new(scn_exec::ExecRaw { property: "C12" }))), Box::new(Part(Arc::new(scn_exec::ObjExec { property: "C12", multi: false }))), Box::new(Part(Arc::new(scn_exec::ObjExec { property: "C12", multi: true })))], rule: RULE_D, quick_s: 20, thorough_s: 600, assumptions: vec![] },
         "C13" => PropertyCheck { parts: vec![Box::new(Part(Arc::new(scn_cont::AllocConc)))], rule: RULE_T, quick_s: 25, thorough_s: 900, assumptions: vec![] },
         "C18" => PropertyCheck { parts: vec![Box::new(Part(Arc::new(scn_cont::RingLin { property: "C18", kinds: &scn_cont::STANDALONE })))], rule: RULE_T, quick_s: 25, thorough_s: 900, assumptions: vec![] },
-        "C04" => PropertyCheck { parts: vec![Box::new(Part(Arc::new(scn_uni::C04Uni)))], rule: RULE_T, quick_s: 25, thorough_s: 900, assumptions: vec![] },
+        "C03" => PropertyCheck { parts: vec![Box::new(Part(Arc::new(scn_multi::C03)))], rule: RULE_T, quick_s: 25, thorough_s: 900, assumptions: vec![] },
+        "C09" => PropertyCheck { parts: vec![Box::new(Part(Arc::new(scn_multi::C09)))], rule: RULE_T, quick_s: 25, thorough_s: 900, assumptions: vec![] },
+        "C17" => PropertyCheck { parts: vec![Box::new(Part(Arc::new(scn_multi::C17)))], rule: RULE_T, quick_s: 25, thorough_s: 900, assumptions: vec![] },
+        "C04" => PropertyCheck { parts: vec![Box::new(Part(Arc::new(scn_uni::C04Uni))), Box::new(Part(Arc::new(scn_multi::C04Multi)))], rule: RULE_T, quick_s: 40, thorough_s: 900, assumptions: vec![] },
         _ => return None,
     })
 }
 
 fn all_parts() -> Vec<Box<dyn PartRunner>> {
     let mut v: Vec<Box<dyn PartRunner>> = vec![];
-    for p in ["C01", "C02", "C04", "C06", "C11", "C12", "C13", "C18"] {
+    for p in ["C01", "C02", "C03", "C04", "C06", "C09", "C17", "C11", "C12", "C13", "C18"] {
         if let Some(pc) = registry(p) {
             v.extend(pc.parts);
         }
